@@ -229,7 +229,7 @@ func HarnessC10Rules() {
 	verif.Assert("C10-unreadable-rule-file-makes-the-build-fail", !c10Unreadable)
 	dir, _ := bundle.LocalPathForRemoteSource(src)
 	for _, n := range envSnapshot(dir) {
-		verif.Assert("C10-everything-excluded-is-removed", !(len(n.Path) > 4 && n.Path[len(n.Path)-4:] == ".log") && n.Path != "top.txt" && n.Path != "c/g" && !wHasPrefix(n.Path, "c/d") && !wHasPrefix(n.Path, ".terraform"))
+		verif.Assert("C10-everything-excluded-is-removed", !(len(n.Path) > 4 && n.Path[len(n.Path)-4:] == ".log") && n.Path != "top.txt" && n.Path != "c/g" && !wHasPrefix(n.Path, "c/d") && n.Path != ".terraform" && !wHasPrefix(n.Path, ".terraform/"))
 		if n.Kind == envLink {
 			verif.Reach("link-kept")
 			real := envRealPath(dir + "/" + n.Path)
